@@ -61,21 +61,22 @@ Orders(R, dir) ==
        IN UNION {{<<i>> \o t : t \in Orders(R \ {i}, dir)} : i \in {j \in R : X[j] = m}}
 
 \* the knots are the runs of a partition of the processing order into consecutive runs of constant fit;
-\* knot abscissa = largest abscissa of the run (its last element when ascending, its first when descending)
+\* knot abscissa = largest abscissa of the run (its last element when ascending, its first when descending).
+\* Runs: knots b..m explain the positions s0..n of the processing order (xsq = abscissae, f = fit along it)
+RECURSIVE Runs(_, _, _, _, _, _, _)
+Runs(dir, xsq, f, r, v, b, s0) ==
+  IF b > Len(r) THEN s0 = Len(xsq) + 1
+  ELSE \E en \in s0..Len(xsq) :
+         /\ r[b] = (IF dir = "inc" THEN xsq[en] ELSE xsq[s0])
+         /\ \A p \in s0..en : Close(v[b], f[p][1], f[p][2], S, Slack)
+         /\ Runs(dir, xsq, f, r, v, b + 1, en + 1)
 KnotsSeq(dir, sg, r, v) ==
   LET n  == Len(sg)
       sy == Eag([p \in 1..n |-> Wt(W, sg[p]) * Y[sg[p]]])
       sw == Eag([p \in 1..n |-> Wt(W, sg[p])])
-      f  == IsoFit(sy, sw)                      \* non-decreasing along the processing order (both directions)
-      m  == Len(r)
-  IN /\ m = Len(v) /\ m >= 1 /\ m <= n
-     /\ \E E \in SUBSET (1..(n - 1)) :
-          /\ Cardinality(E) = m - 1
-          /\ LET en == SortSet(E \cup {n}) IN
-             \A b \in 1..m :
-               LET s0 == IF b = 1 THEN 1 ELSE en[b - 1] + 1 IN
-               /\ r[b] = X[sg[IF dir = "inc" THEN en[b] ELSE s0]]
-               /\ \A p \in s0..en[b] : Close(v[b], f[p][1], f[p][2], S, Slack)
+  IN /\ Len(r) = Len(v) /\ Len(r) >= 1 /\ Len(r) <= n
+     /\ \E f \in {IsoFit(sy, sw)} :             \* non-decreasing along the processing order (both directions)
+        \E xsq \in {Eag([p \in 1..n |-> X[sg[p]]])} : Runs(dir, xsq, f, r, v, 1, 1)
 
 FitTies(dir, r, v) == \E sg \in Orders(1..Len(X), dir) : KnotsSeq(dir, sg, r, v)
 
